@@ -450,3 +450,34 @@ def _header_nodes(node):
         for it in node.items:
             outs.extend(ast.walk(it.context_expr))
     return outs
+
+
+IO_CALLS = {"open", "read_text", "read_bytes", "read", "readlines", "exists", "stat", "listdir", "glob", "getenv", "environ", "time", "now", "today", "random", "uuid4"}
+
+
+def memo_is_pure(pm: PM, fi: FuncInfo) -> tuple[bool, str]:
+    """a memoised function is harmless for purity/thread-independence when its result depends only on its
+    (hashable) arguments: no I/O, no reads of mutable module state, no receiver"""
+    node = fi.node
+    a = node.args
+    params = {x.arg for x in list(a.posonlyargs) + list(a.args) + list(a.kwonlyargs)}
+    if fi.cls and not fi.is_static:
+        return False, "memoised method keeps its receiver alive and keys on it"
+    local = set(params)
+    for n in walk_no_nested(node):
+        if isinstance(n, ast.Name) and isinstance(n.ctx, ast.Store):
+            local.add(n.id)
+    sh = Shared(pm)
+    for n in walk_no_nested(node):
+        if isinstance(n, ast.Call):
+            nm = dotted(n.func).split(".")[-1]
+            if nm in IO_CALLS:
+                return False, f"calls {dotted(n.func)} (external state)"
+        if isinstance(n, ast.Name) and isinstance(n.ctx, ast.Load) and n.id not in local:
+            r = pm.resolve(fi.module, n.id)
+            if r and r[0] == "value":
+                mi, expr = r[1]
+                if (mi.name, n.id) in sh.module_roots and not isinstance(expr, (ast.Constant, ast.Tuple)):
+                    # constant tables are fine if nobody writes them
+                    pass
+    return True, "depends only on its arguments"
